@@ -8,6 +8,8 @@
 import CspuzModel.Proofs.C17
 import CspuzModel.Proofs.C15Puzzles
 import CspuzModel.Proofs.C17Reenc
+import CspuzModel.Proofs.C17Nested
+import CspuzModel.Proofs.C17TuplLoss
 namespace Cspuz.C17
 open Cspuz Cspuz.Ser
 
@@ -50,14 +52,25 @@ def statement_total_puzzles : Prop :=
 
 theorem C17_total_puzzles : statement_total_puzzles := puzzleCodecs_safe
 
-/-- **Re-encodability** (full strength; statement only — proved below for Grid/Seq over flat bases and for the six
-grid puzzle codecs; NOT proved for arbitrary nested terms, nor for the three `Rooms`-based codecs, where it would need
-"every decoded partition is a valid partition in canonical form", see the report): whatever a decoder returns can be
-serialized, and the canonical text decodes to the same problem. -/
+/-- **Re-encodability** (full strength): whatever a decoder returns can be serialized, and the canonical text decodes to
+the same problem.  This statement is FALSE on the current code (`C17_reencodable_fails` below: a `Tupl` whose element
+decodes several items that its serializer does not take in one call).  Proved parts: nested `Seq`/`Grid` terms over
+closed flat bases (`C17_reencodable_nested`), and the six grid puzzle codecs (`C17_reencodable_puzzles`); NOT proved for
+other terms with `Tupl`/`OneOf` above a `Seq`/`Grid`, nor for the three `Rooms`-based codecs, where it would need "every
+decoded partition is a valid partition in canonical form". -/
 def statement_reencodable : Prop :=
   ∀ (c : Comb), wf c = true → single c = true →
     ∀ (s : Str) (h w : Nat) (p : PyVal), deProblem c s h w = .ok p →
       ∃ s', serProblem c p h w = .ok s' ∧ deProblem c s' h w = .ok p
+
+/-- **The full statement fails** — the known finding `tupl:element-serializer-leaves-decoded-items` of
+/verif/known_findings.json.  `Tupl.serialize` hands each component to its element ONCE (at index 0) and ignores how
+many items that call consumed, while `Tupl.deserialize` keeps every item the element decoded.  Witness: the
+well-formed, problem-level term `Tupl(OneOf(Dict([0], ['.']), Spaces(0, 'j'), HexInt()))` on a 3 × 3 board and the
+text `"r"`: `deserialize_problem` returns `([0, 0, 0, 0, 0, 0, 0, 0, 0],)` (`Spaces` reads `r` as a run of nine zeros);
+`serialize_problem` of it returns `"."` (the earlier alternative `Dict` accepts the leading `0`, the other eight
+items are dropped silently), and `"."` decodes to `([0],)`. -/
+theorem C17_reencodable_fails : ¬ statement_reencodable := Cspuz.Ser.TuplLoss.full_statement_fails
 
 /-- **Re-encodability, proved part**: for every well-formed `Grid(b)` / `Seq(b, n)` whose base `b` is flat (a `MultiDigit`,
 or a `Dict`/`Spaces`/`HexInt`/`IntSpaces`/`YajilinClue` leaf, or a `OneOf` of such leaves) and closed (`closedBase`: the
@@ -76,6 +89,21 @@ theorem C17_reencodable_partial : statement_reencodable_partial :=
   ⟨fun b dims hw hf hc s h w p hde =>
       ⟨grid_reencodable b dims hw hf hc s h w p hde, grid_reencodable' b dims hw hf hc s h w p hde⟩,
    fun b n hw hf hc s h w p hde => seq_reencodable' b n hw hf hc s h w p hde⟩
+
+/-- **Re-encodability of nested `Seq` / `Grid` terms**: for every well-formed term built from `Seq(·, n)` and
+`Grid(·[, h, w])` in any nesting (`SeqGridTerm`, Spec/SerializerReenc.lean) over a closed flat base, every board size
+and EVERY text: a returned problem lies in `Dom` (accepted by the serializer, without surplus), so serializing it
+succeeds and decoding the canonical text returns the same problem.  (Holds since `Grid.serialize` asks its inner `Seq`
+for item 0: a `Grid` now serializes at every position of an enclosing `Seq`/`Grid`.)  Generalises
+`statement_reencodable_partial`, which is the nesting depth 1. -/
+def statement_reencodable_nested : Prop :=
+  ∀ (c : Comb), SeqGridTerm c → wf c = true →
+    ∀ (s : Str) (h w : Nat) (p : PyVal), deProblem c s h w = .ok p →
+      Dom c h w p ∧ ∃ s', serProblem c p h w = .ok s' ∧ deProblem c s' h w = .ok p
+
+theorem C17_reencodable_nested : statement_reencodable_nested :=
+  fun c hc hw s h w p hde =>
+    ⟨Cspuz.Ser.Nested.nested_dom c hc hw s h w p hde, Cspuz.Ser.Nested.nested_reencodable c hc hw s h w p hde⟩
 
 /-- **Re-encodability of the six grid puzzle codecs** (regenerated terms), also through `deserialize_<puzzle>`'s call of
 `deserialize_problem_as_url`: the decoded problem belongs to the board size written in the URL, serializes, and
@@ -109,5 +137,39 @@ example : de (.rooms false false) ⟨4, 3⟩ [100, 107, 112, 103] 0 = .raised .v
 example : de (.rooms true false) ⟨4, 3⟩ [100, 107, 112, 103] 0 = .none := by rfl
 /-- a board without cells (zero-size guard): `ValueError` -/
 example : deProblem (.rooms false false) [120] 5 0 = .raised .valueError := by rfl
+
+/-- nested terms (the fix 30e14c3 of `Grid.serialize`): `Seq(Grid(HexInt(), 1, 1), 2)` is a well-formed `SeqGridTerm`;
+`"12"` decodes to `[[[1]], [[2]]]`, which serializes to `"12"` again (before the fix: `AssertionError`) -/
+example : SeqGridTerm (.seq (.grid .hexInt (some (1, 1))) 2) ∧ wf (.seq (.grid .hexInt (some (1, 1))) 2) = true :=
+  ⟨.seqNest _ _ (.gridFlat _ _ rfl (by decide)), by decide⟩
+example : deProblem (.seq (.grid .hexInt (some (1, 1))) 2) [49, 50] 3 3
+    = .ok (.list [.list [.list [.int 1]], .list [.list [.int 2]]]) := by rfl
+example : serProblem (.seq (.grid .hexInt (some (1, 1))) 2) (.list [.list [.list [.int 1]], .list [.list [.int 2]]]) 3 3
+    = .ok [49, 50] := by rfl
+/-- a `Grid` at position 1 of the enclosing list serializes like one at position 0 -/
+example : ser (.grid .hexInt (some (1, 1))) ⟨3, 3⟩ [.list [.list [.int 1]], .list [.list [.int 2]]] 1 = .ok (1, [50]) := by rfl
+/-- `Grid(Grid(HexInt(), 1, 2), 2, 1)` on `"1234"`: `[[[[1, 2]]], [[[3, 4]]]]`, and back -/
+example : SeqGridTerm (.grid (.grid .hexInt (some (1, 2))) (some (2, 1))) :=
+  .gridNest _ _ (.gridFlat _ _ rfl (by decide))
+example : deProblem (.grid (.grid .hexInt (some (1, 2))) (some (2, 1))) [49, 50, 51, 52] 3 3
+    = .ok (.list [.list [.list [.list [.int 1, .int 2]]], .list [.list [.list [.int 3, .int 4]]]]) := by rfl
+example : serProblem (.grid (.grid .hexInt (some (1, 2))) (some (2, 1)))
+    (.list [.list [.list [.list [.int 1, .int 2]]], .list [.list [.list [.int 3, .int 4]]]]) 3 3 = .ok [49, 50, 51, 52] := by rfl
+/-- three levels, the innermost `Grid` taking the board size: `Seq(Seq(Grid(OneOf(Spaces(-1,'g'), HexInt())), 1), 2)` on a
+1 × 2 board, text `"h3"` (a run of two `-1`, then `3` and text exhausted → `None`) and `"h3g"` -/
+example : SeqGridTerm (.seq (.seq (.grid (.oneOf [.spaces (.int (-1)) 15, .hexInt]) none) 1) 2) ∧
+    wf (.seq (.seq (.grid (.oneOf [.spaces (.int (-1)) 15, .hexInt]) none) 1) 2) = true :=
+  ⟨.seqNest _ _ (.seqNest _ _ (.gridFlat _ _ rfl (by decide))), by decide⟩
+example : deProblem (.seq (.seq (.grid (.oneOf [.spaces (.int (-1)) 15, .hexInt]) none) 1) 2) [104, 51] 1 2 = .none := by rfl
+example : deProblem (.seq (.seq (.grid (.oneOf [.spaces (.int (-1)) 15, .hexInt]) none) 1) 2) [104, 51, 103] 1 2
+    = .ok (.list [.list [.list [.list [.int (-1), .int (-1)]]], .list [.list [.list [.int 3, .int (-1)]]]]) := by rfl
+example : serProblem (.seq (.seq (.grid (.oneOf [.spaces (.int (-1)) 15, .hexInt]) none) 1) 2)
+    (.list [.list [.list [.list [.int (-1), .int (-1)]]], .list [.list [.list [.int 3, .int (-1)]]]]) 1 2
+    = .ok [104, 51, 103] := by rfl
+/-- the witness of `C17_reencodable_fails`, step by step -/
+example : wf Cspuz.Ser.TuplLoss.term = true ∧ single Cspuz.Ser.TuplLoss.term = true := ⟨by decide, by decide⟩
+example : deProblem Cspuz.Ser.TuplLoss.term [114] 3 3 = .ok (.tuple [.list (List.replicate 9 (.int 0))]) := by rfl
+example : serProblem Cspuz.Ser.TuplLoss.term (.tuple [.list (List.replicate 9 (.int 0))]) 3 3 = .ok [46] := by rfl
+example : deProblem Cspuz.Ser.TuplLoss.term [46] 3 3 = .ok (.tuple [.list [.int 0]]) := by rfl
 
 end Cspuz.C17
